@@ -574,7 +574,7 @@ pub fn tuple_universe(full: bool) -> Vec<SpecTuple> {
         vec![("k", "v")],
         vec![("a", "a&b=c"), ("b", "+ ")],
         vec![("checksum", "a:00,b:ff0a"), ("k", "x?y")],
-        vec![("checksum", "sha1:ab,é:")],
+        vec![("checksum", "aé:,sha1:ab")],
         vec![("checksum", "md:00,md5:11"), ("k_", "v"), ("kz", "w")],
         vec![("checksum", "a&b#c:00,x%41:ff")],
     ];
